@@ -233,6 +233,11 @@ namespace link_layer {
                     that().connection_data_.is_encrypted( false );
                     that().stop_receive_encrypted();
                     that().stop_transmit_encrypted();
+
+                    // a pending encryption start procedure ends with the connection
+                    has_key_                    = false;
+                    encryption_in_progress_     = false;
+                    start_encryption_requested_ = false;
                 }
 
             private:
